@@ -169,7 +169,9 @@ def check(case):
     if onp.linalg.norm(dH) < 1e-3:
         dH = dH + onp.eye(3)
     dH = dH / onp.linalg.norm(dH)
-    scaleH = max(onp.linalg.norm(He), 1e-3 if cfg.family != 'j2' else 0.2 * e0)
+    # the smallest stencil step must keep the rounding noise of the second difference of W (about 64 eps K / h^2: finite
+    # deformation energies subtract O(1) terms such as tr(C) - 3) below a tenth of the tangent tolerance 1e-5 K
+    scaleH = max(onp.linalg.norm(He), 3e-2 if cfg.family != 'j2' else 0.2 * e0)
     hs = [1e-2 * scaleH, 0.5e-2 * scaleH]
     # yield-switch straddling (J2): all stencil points must be on the same side as the centre
     if cfg.family == 'j2':
@@ -218,8 +220,11 @@ def check(case):
         incon = 'fd-not-converged'
     elif abs(ad1 - fd1[1]) > tol1:
         local.append(Failure('stress', '%s: grad(W):dH = %.10g, central difference of W = %.10g (|P| = %.3g)' % (what, ad1, fd1[1], nP), **data))
+    noise2 = 64 * EPS * (float(onp.abs(Ws).max()) + K) / (hs[1] * hs[1])
     if abs(fd2[0] - fd2[1]) > 0.1 * tol2:
         incon = incon or 'fd2-not-converged'
+    elif noise2 > 0.1 * tol2:
+        incon = incon or 'fd2-below-rounding-noise'      # tangent still decided by the difference of grad W below
     elif abs(ad2 - fd2[1]) > tol2:
         local.append(Failure('tangent', '%s: dH:C:dH = %.10g from jvp(grad), second difference of W = %.10g (stiffness %.3g)' % (what, ad2, fd2[1], K), **data))
     if onp.abs(fdg[0] - fdg[1]).max() > 0.1 * tol2:
